@@ -399,3 +399,24 @@ class budget:
         if StepBudget.limit is not None and self.charge:
             StepBudget.count += used
         return False
+
+
+def clean_scratch():
+    """Remove scratch directories (file-system engines) that were left
+    behind by processes that no longer exist (workers are killed when a
+    check ends early; pids come round again)."""
+    import glob
+    import shutil
+    base = os.environ.get('VERIF_SCRATCH', '/var/tmp/desper-verif')
+    for d in glob.glob(base + '-*'):
+        pid = d.rsplit('-', 1)[1]
+        if not pid.isdigit():
+            continue
+        try:
+            os.kill(int(pid), 0)
+            continue                    # that process is alive
+        except ProcessLookupError:
+            pass
+        except OSError:
+            continue
+        shutil.rmtree(d, ignore_errors=True)
